@@ -10,6 +10,7 @@ writes, in particular between `UpdateCommitment` and the return of the revocatio
 -/
 import LndModel.C02.Lemmas
 import LndModel.C02.Total
+import LndModel.C02.RestoreErr
 set_option linter.unusedSimpArgs false
 set_option linter.unusedVariables false
 
@@ -298,6 +299,36 @@ theorem restore_is_signed_projection_partial (n0 : Node) (h0 : Fresh n0) (evs : 
 theorem restore_total_partial (cfg : Cfg) (d : Disk) (h : DiskWF d) : ∃ n, restore cfg d = .ok n :=
   restore_ok_of_wf cfg d h
 
+/-- **restore_failure_kinds** (FULL: every run of API calls with any arguments, `emit`, crashes /
+    restarts, chan-sync retransmissions and `ReceiveRevocation` of arbitrary messages, from ANY
+    initial node).  Two of the five ways `NewLightningChannel` can fail are unreachable:
+    * "unknown message type" of `restorePeerLocalUpdates` (`localLogUpdateToPayDesc` on an
+      `update_add_htlc`): the remote-unsigned-local updates written by `AdvanceCommitChainTail` and
+      filtered by `UpdateCommitment` never contain an add;
+    * "attempted to restore an unsigned remote update" of `restorePendingRemoteUpdates`: every
+      unsigned-acked update on disk has a log index below `LocalCommitment.RemoteLogIndex`
+      (written together with that commitment by `UpdateCommitment`, only filtered afterwards).
+    What remains for the full `restore_total` are the three structural panics (nil parent HTLC,
+    "log index mismatch", "htlc index mismatch"), covered by `restore_total_partial` under `DiskWF`. -/
+theorem restore_failure_kinds (n0 : Node) (evs : List Ev) (cfg : Cfg) :
+    let d := ((St.init n0).run evs).disk
+    restore cfg d ≠ .error .unsignedRemote ∧ restore cfg d ≠ .error .unknownMsg ∧
+    ∀ e, restore cfg d = .error e → e = .noParent ∨ e = .logIndexMismatch ∨ e = .htlcIndexMismatch := by
+  intro d
+  have hU : DiskUp d := diskUp_run (diskUp_init n0) evs
+  have hB := restoreLogs_benign d hU
+  have key : ∀ e, restore cfg d = .error e → e = .noParent ∨ e = .logIndexMismatch ∨ e = .htlcIndexMismatch := by
+    intro e he
+    unfold restore at he
+    rcases hB with h | h | h | ⟨lL, lR, h, _⟩
+    · rw [h] at he; simp only [Except.error.injEq] at he; exact Or.inl he.symm
+    · rw [h] at he; simp only [Except.error.injEq] at he; exact Or.inr (Or.inl he.symm)
+    · rw [h] at he; simp only [Except.error.injEq] at he; exact Or.inr (Or.inr he.symm)
+    · rw [h] at he; cases he
+  refine ⟨?_, ?_, key⟩
+  · intro he; rcases key _ he with h | h | h <;> cases h
+  · intro he; rcases key _ he with h | h | h <;> cases h
+
 /-! ## continuing after a restart (partial) -/
 
 /-- **continue_after_restore_partial**.  A restored state on which the executable check `invCheck`
@@ -341,5 +372,13 @@ example : ChainTrace [⟨0, 2, .revoke⟩, ⟨1, 3, .lost⟩, ⟨1, 3, .sync⟩]
 example : invCheck demoNode = true := by decide
 
 example : DiskWF (St.init demoNode).disk := diskWF_spec _ (by decide)
+
+/-- the two failure kinds excluded by `restore_failure_kinds` are real on unreachable disks: an
+    unsigned-acked fee update at the remote log index of the local commitment / an add among the
+    remote-unsigned-local updates. -/
+example : (match restore demoCfg { (St.init demoNode).disk with ua := some [{ ty := .feeUpd, amt := 300000, logIndex := 0 }] } with
+    | .error e => e == .unsignedRemote | .ok _ => false) = true := by decide
+example : (match restore demoCfg { (St.init demoNode).disk with rul := some [{ ty := .add, amt := 5000, logIndex := 0 }] } with
+    | .error e => e == .unknownMsg | .ok _ => false) = true := by decide
 
 end LndModel.C02
